@@ -795,8 +795,17 @@ def recurrence_steps(ctx, prog):
                     after = g.dominates(inc_b, step_b)
                     # window end: l + (MIN - 1), defined in the block that (re)loads d
                     ends = [v for ll, vs3 in byname.items() for b, v in vs3 if v in ("Add(%s,Sub(%s,1))" % (me, MIN), "Add(%s,6)" % me, "Add(Sub(%s,1),%s)" % (MIN, me))]
-                    ok = after and len(ends) == 1
-                    why = "d: init mask[other[l]], step (d << 1) & mask[other[l]] %s the `l + 1` of the same round; window end %s" % ("after" if after else "NOT dominated by", ends)
+                    # the inner loop runs exactly while the running match is alive: every test of d against a constant on the way to the step
+                    # is `d != 0`
+                    from ..sym import path_conds as _pc, bool_atom as _ba
+                    dconds = []
+                    for c in _pc(g, sy, step_b):
+                        a = _ba(c)
+                        if a and a[0] != "truth" and strip(a[1])[0] == "local" and strip(a[1])[1] == d and const_value(strip(a[2])) is not None:
+                            dconds.append((a[0], const_value(strip(a[2]))))
+                    alive = bool(dconds) and all(x == ("Ne", 0) for x in dconds)
+                    ok = after and len(ends) == 1 and alive
+                    why = "d: init mask[other[l]], step (d << 1) & mask[other[l]] %s the `l + 1` of the same round; window end %s; loop tests on d: %s" % ("after" if after else "NOT dominated by", ends, dconds)
                     break
                 why += "; %s: %s" % (g.locals[d]["name"], [v[:90] for _, v in vs2])
     ctx.ob(R, "has_common_substring_internal steps: l = len(other) - MIN_LCS, l + 1, l - MIN_LCS; d = mask[other[l]], d' = (d << 1) & mask[other[l]] after the advance; window end l + (MIN_LCS - 1)", ok, why[:600], g.loc())
